@@ -73,22 +73,30 @@ macro_rules! impl_parse {
                 let mut $out = Self::default();
                 loop {
                     let key: syn::Ident = $input.call(syn::ext::IdentExt::parse_any)?;
-                    match &*key.to_string() {
-                        $($k => $e,)*
-                        #[allow(unreachable_patterns)]
-                        x => {
-                            if cfg!(not(feature = "no-serde-warnings")) {
-                                let tokens = crate::attr::skip_until_next_comma($input);
+                    let x = key.to_string();
+                    // `Ok(true)`: a supported attribute in a supported form.
+                    // A supported key in a form we cannot parse is treated like an unsupported
+                    // attribute: it is skipped, instead of discarding the whole list.
+                    let parsed: syn::Result<bool> = (|| {
+                        match &*x {
+                            $($k => { $e; Ok(true) },)*
+                            #[allow(unreachable_patterns)]
+                            _ => Ok(false),
+                        }
+                    })();
 
-                                crate::utils::warning::print_warning(
-                                    "failed to parse serde attribute",
-                                    format!("{x} {tokens}"),
-                                    "ts-rs failed to parse this attribute. It will be ignored.",
-                                )
-                                .unwrap();
-                            } else {
-                                crate::attr::skip_until_next_comma($input);
-                            }
+                    if !matches!(parsed, Ok(true)) {
+                        if cfg!(not(feature = "no-serde-warnings")) {
+                            let tokens = crate::attr::skip_until_next_comma($input);
+
+                            crate::utils::warning::print_warning(
+                                "failed to parse serde attribute",
+                                format!("{x} {tokens}"),
+                                "ts-rs failed to parse this attribute. It will be ignored.",
+                            )
+                            .unwrap();
+                        } else {
+                            crate::attr::skip_until_next_comma($input);
                         }
                     }
 
